@@ -30,4 +30,45 @@ HAND = {
          r'return self\._can_be_in_run_prefix\(op\) and not protocols\.is_parameterized\(op\)',
          'if protocols.is_parameterized(op):\n                return False\n            return self._can_be_in_run_prefix(op)', None),
     ],
+    'C13': [
+        ('cx-sign-term-not-negated', 'break', CC + 'qis/clifford_tableau.py', 'CliffordTableau.apply_cx',
+         r'\(~\(self\.xs\[:, target_axis\] \^ self\.zs\[:, control_axis\]\)\)', '(self.xs[:, target_axis] ^ self.zs[:, control_axis])', 'C13.a'),
+        ('cx-x-propagates-backwards', 'break', CC + 'qis/clifford_tableau.py', 'CliffordTableau.apply_cx',
+         r'self\.xs\[:, target_axis\] \^= self\.xs\[:, control_axis\]', 'self.xs[:, control_axis] ^= self.xs[:, target_axis]', 'C13.a'),
+        ('rowsum-g-sign-flipped', 'break', CC + 'qis/clifford_tableau.py', 'CliffordTableau._rowsum',
+         r'return int\(z2\) - int\(x2\)', 'return int(x2) - int(z2)', 'C13.b'),
+        ('dispatcher-y-calls-x-rule', 'break', CC + 'sim/clifford/stabilizer_simulation_state.py', 'StabilizerSimulationState._strat_apply_gate',
+         r'self\._state\.apply_y\(', 'self._state.apply_x(', 'C13.c'),
+        ('dispatcher-cx-axes-swapped', 'break', CC + 'sim/clifford/stabilizer_simulation_state.py', 'StabilizerSimulationState._strat_apply_gate',
+         r'apply_cx\(axes\[0\], axes\[1\]', 'apply_cx(axes[1], axes[0]', 'C13.c'),
+        ('swap-middle-cx-loses-exponent', 'break', CC + 'sim/clifford/stabilizer_simulation_state.py', 'StabilizerSimulationState._swap',
+         r'apply_cx\(target_axis, control_axis, exponent, global_shift\)', 'apply_cx(target_axis, control_axis)', 'C13.c'),
+        ('cx-early-return-as-guard', 'twin', CC + 'qis/clifford_tableau.py', 'CliffordTableau.apply_cx',
+         r'if exponent % 2 == 0:\n\s+return\n', 'if not exponent % 2:\n            return None\n', None),
+    ],
+    'C14': [
+        ('third-pauli-wrong-sign', 'break', CC + 'ops/pauli_gates.py', 'Pauli.third',
+         r'\(-self\._index - second\._index\) % 3', '(self._index - second._index) % 3', 'C14.a'),
+        ('relative-index-reversed', 'break', CC + 'ops/pauli_gates.py', 'Pauli.relative_index',
+         r'self\._index - second\._index \+ 1', 'second._index - self._index + 1', 'C14.a'),
+        ('eigen-map-z-swapped', 'break', CC + 'ops/pauli_interaction_gate.py', None,
+         r'pauli_gates\.Z: \(np\.diag\(\[1, 0\]\), np\.diag\(\[0, 1\]\)\)', 'pauli_gates.Z: (np.diag([0, 1]), np.diag([1, 0]))', 'C14.c'),
+    ],
+    'C18': [
+        ('run-drops-repetitions', 'break', CC + 'work/sampler.py', 'Sampler.run',
+         r'self\.run_sweep\(program, param_resolver, repetitions\)', 'self.run_sweep(program, param_resolver)', 'C18.a'),
+        ('async-bridge-drops-params', 'break', CC + 'work/sampler.py', 'Sampler._run_sweep_async_impl',
+         r'params=params', 'params=None', 'C18.a'),
+        ('batch-pairs-programs-with-wrong-list', 'break', CC + 'work/sampler.py', 'Sampler.run_batch_async',
+         r'zip\(programs, params_list, repetitions\)', 'zip(programs, programs, repetitions)', 'C18.a'),
+        ('json-binary-flag-hardwired', 'break', CC + 'study/result.py', 'ResultDict._json_dict_',
+         r"'binary': binary", "'binary': True", 'C18.b'),
+        ('json-shape-field-dropped', 'break', CC + 'study/result.py', 'ResultDict._json_dict_',
+         r"\n\s+'shape': digits\.shape,", '', 'C18.b'),
+        ('zeros-sampler-ignores-repetitions', 'break', CC + 'work/zeros_sampler.py', 'ZerosSampler.run_sweep',
+         r'np\.zeros\(\(repetitions, ', 'np.zeros((1, ', 'C18.c'),
+        ('run-via-named-local', 'twin', CC + 'work/sampler.py', 'Sampler.run',
+         r'return self\.run_sweep\(program, param_resolver, repetitions\)\[0\]',
+         'all_results = self.run_sweep(program, params=param_resolver, repetitions=repetitions)\n        return all_results[0]', None),
+    ],
 }
